@@ -70,6 +70,10 @@ func Dial(network, address string) (net.Conn, error) {
 }
 
 func ResolveIPAddr(network, address string) (*net.IPAddr, error) {
+	if address == "" {
+		// the real resolver sends no query for an empty host: it answers with an address-less IPAddr and no error
+		return net.ResolveIPAddr(network, address)
+	}
 	if ResolveHook != nil {
 		host := address
 		if i := indexByte(host, '%'); i >= 0 {
